@@ -52,7 +52,7 @@ func (w *workerProc) kill() {
 
 type workerReq struct {
 	Kind string
-	RC   *runCase `json:",omitempty"`
+	RC   *runCase        `json:",omitempty"`
 	Raw  json.RawMessage `json:",omitempty"`
 }
 
